@@ -61,3 +61,34 @@ chk("C11", "histx",
     "All 56 ordered pairs of distinct commands (plus a third command) outside and inside a session x all placements of <= 2 (in-session quick: 1) socket events {reply delayed past the timeout, duplicated, held until after the next reply, stray valid reply of another command first, lost} over a FIFO socket model; oracle: every nil-error result equals the BMC's answer to that very command (differential against the undisturbed run).",
     "FIFO one-read-per-attempt socket model (that is what transport.Send does). Replies of the same NetFn/command are indistinguishable by the property's criterion and are not judged.",
     "DESIGN.md section 4 C11, appendix A.1")
+ENGINES[0]["serves_properties"] = ["C05", "C06", "C07", "C08", "C15", "C17", "C20"]
+chk("C05", "domx+histx",
+    "exhaustive structural enumeration of byte strings per decodable layer (exact-capacity + poisoned-window decoding) and fault enumeration of the same catalogue at every protocol position",
+    "Layer level: for each of the 31 decodable layers (registry cross-checked against a go/ast scan of /repo) every length 0..MaxLen x fills, every base encoding with every byte set to all 256 values, all truncations/extensions, two-byte deviations, and crafted check-straddling inputs (wrapper length x remaining, AES pad-length byte 0..255 with the IV shaped as the validator expects, messages of every short length per NetFn class, type/length x remaining, record counts x remaining); each decoded on an exact-capacity slice under recover and as a window of a 512-byte buffer under two poison fills (difference = dependence on bytes past the datagram), with a watchdog. Protocol level: ~900 nasty replies (bodies of every length/fill, cut bodies, short messages, crafted AES payloads signed with the session keys, wrapper-level garbage) substituted at every receive point of 13 calls incl. SDR walk, DCMI enumeration, discovery pages and each handshake step.",
+    "Byte strings are enumerated structurally, not all 256^512. Protocol level uses exact-capacity delivery; window delivery is covered at layer level.",
+    "DESIGN.md section 4 C05")
+chk("C06", "domx+refbmc",
+    "exhaustive enumeration of request field values sent through the real send paths, parsed by the independent BMC",
+    "Every request layer x every value of each field (whole wire domain for fields of <= 8 bits, boundary alphabets for 16/32-bit ones, each axis complete) is sent through V2Sessionless.SendCommand and through V2Session.SendCommand; the reference BMC checks the RMCP header, wrapper, addresses, NetFn/LUN/command, both checksums and compares the body with an independently written encoding; Open Session Request / RAKP 1 / RAKP 3 are compared byte for byte at layer level for all field values, user names of 17 bytes must be refused.",
+    "Out-of-domain caller values (e.g. channel > 15) are not judged. Setup payloads reach the wire only through NewV2Session with fixed tag/session ID; that path is covered by C01.",
+    "DESIGN.md section 4 C06")
+chk("C07", "domx+refcodec",
+    "exhaustive per-byte enumeration of response encodings decoded by the library and by an independent reference decoder",
+    "For 23 response layers every byte of every base encoding takes all 256 values, 10-bit and 4-bit fields of the Full Sensor Record are enumerated in full, ID strings cover 4 encodings x 0..31 characters x contents x trailing bytes, optional tails every length; all fields the reference defines are compared by name via reflection. Every wrong value of either message checksum, wrapper length fields beyond the data and bodies below the layer minimum must be rejected.",
+    "Reference decoders (harness/ref/codec.go) are written from the specification tables; where the repository documents a deliberate reading (flag polarity in Get Channel Authentication Capabilities, DCMI SEL attributes, 1-byte Open Session error) the reference follows it. Encodings with reserved bits set are decoded but not judged.",
+    "DESIGN.md section 4 C07")
+chk("C08", "domx",
+    "exhaustive enumeration of field values x payload lengths 0..200 for the five two-way layers: serialise/decode/serialise identities",
+    "v1.5 wrapper, v2.0 wrapper (12 payload descriptors incl. OEM explicit, 4 flag combinations, 3 integrity algorithms x 3 keys, ID/sequence alphabets), IPMI message (all 64 NetFns, LUNs, sequence numbers, body codes, enterprise numbers, completion codes), AES-128-CBC (every payload length 0..200 x keys x IVs) and RAKP Message 1 (user names 0..17): decode(serialise(x)) = x with the inner payload returned, serialise(decode(bytes)) = bytes; the authenticated trailer is also checked against the pad rule independently.",
+    "A fresh SerializeBuffer per case (which is what exposed the AES stale-slice defect). 32-bit fields over a boundary alphabet.",
+    "DESIGN.md section 4 C08")
+chk("C15", "domx+refbmc",
+    "axis-complete exhaustive enumeration through record -> reader -> Read against exact rational arithmetic",
+    "Raw 0..255 x 3 analog formats x 12 linearisations complete for boundary factor sets; M and B over all 1024 values, K1 x K2 over all 256 pairs, pairs of boundary sets, all 256 flag bytes, all 128 linearisation codes x 4 formats for reader refusal; every case goes record bytes -> FullSensorRecord.DecodeFromBytes -> NewSensorReader -> Read over a real session to the reference BMC; expected value by math/big rationals with a derived forward-error bound and interval evaluation through L.",
+    "Tolerance 8*2^-53*(|Mx|+|B|10^K1)*10^K2, hull widened by 16 ulp; intervals containing a singularity of L are not judged (counted).",
+    "DESIGN.md section 4 C15")
+chk("C17", "domx+histx",
+    "exhaustive ordered pairs (earlier, later) per layer: decode-into-used vs decode-into-fresh; ordered command pairs on one connection vs fresh connection",
+    "For each of the 31 decodable layers every ordered pair from a shape catalogue (valid encodings per branch and tail length, all-FF/all-00 variants, every truncation, extensions) is decoded earlier-then-later into one value and later into a fresh one; all exported fields, contents and payload must agree (error status too). Connection level: all ordered pairs over 12 operations (incl. SDR retrieval and DCMI enumeration) in and outside a session, the first also failed/retried (k<=1), second result must equal the fresh-connection result.",
+    "Observable = %+v rendering (nil vs empty slice not distinguished).",
+    "DESIGN.md section 4 C17")
